@@ -461,7 +461,9 @@ int main(int argc, char* const* argv)
         }
         instance.tx = MakeTransactionRef(mtx);
 
-        instance.configure_tx_txin();
+        if (!instance.configure_tx_txin()) {
+            abort("the input spent by the transaction could not be set up as a taproot spend");
+        }
         instance.execdata.m_codeseparator_pos = 0xFFFFFFFFUL;
         instance.execdata.m_codeseparator_pos_init = true;
 
